@@ -268,11 +268,34 @@ def local_solver_cases(rng, tier):
     return cases
 
 
+def trace_cases(res, rng, tier):
+    """Tie of the LOOP of _amen_solve_python to the kernel theorems (harness/looptie.py): (i) the assembled local matrix B (inline einsums)
+    applied to an integer test core = Kern.localProduct on the stored environments; (ii) the local right-hand side = Kern.localRhs;
+    (iii) loop invariant: the stored (normalised) environments Phis / Phis_b are, up to their positive normalisation, the folds foldFwdA /
+    foldBckA / foldFwdRhs / foldBckRhs of the CURRENT solution cores — the environments the theorems local_galerkin / rhs_galerkin are about."""
+    from looptie import solve_loop_tie
+    runs = []
+    for c in range(4 if tier == "quick" else 30):
+        d = rng.choice([2, 3, 3, 4])
+        N = [rng.randint(2, 3) for _ in range(d)]
+        kind = ["laplace", "dd", "spd"][c % 3]
+        seed = rng.randrange(1 << 30)
+
+        def thunk(N=N, kind=kind, seed=seed):
+            tn.manual_seed(seed); np.random.seed(seed % (2 ** 32))
+            A, b = system(rng, kind, N)
+            S._amen_solve_python(A, b, nswp=4, eps=1e-8, max_full=10 ** 6, kickrank=2, verbose=False)
+        runs.append(("amen_solve/%s/d%d" % (kind, d), thunk))
+    n = solve_loop_tie(res, "C12", rng, S._amen_solve_python, "solution_now = tn.linalg.solve(B, rhs)", runs, "A", "b", False)
+    res.extra["amen_loop_state_evaluations"] = n
+
+
 def run(res, rng, tier, known):
     from common import run_cases
     stats = []
     cases = kernel_cases(rng, tier) + local_solver_cases(rng, tier) + monitor_cases(rng, tier, stats)
     run_cases(res, cases, known)
+    trace_cases(res, rng, tier)
     if stats:
         res.extra["contract_monitor_runs"] = len(stats)
         res.extra["contract_monitor_max_residual_over_eps"] = max(s[2] for s in stats)
